@@ -58,6 +58,17 @@ def _case(draw, big=False):
     extra = 1 if big else 0
     if group == "plain":
         case = draw(gen.rec_case(max_obj=5 + extra, max_sp=5 + extra, costs="coherent", labelled=False))
+    elif group in ("ordered", "unordered") and gen.chance(draw, 1, 5):
+        # deep chains (caterpillar of 6..7 leaves over <=2 species, <=3 families, independent leaf contents), complete
+        # optimal sets from the recursion oracle; both loss costs positive so that the sets stay small
+        case = draw(gen.deep_chain_case(min_obj=6, max_obj=7, max_sp=2, max_fam=3))
+        c = dict(case["costs"])
+        c["SEGMENTAL_LOSS"] = max(1, c["SEGMENTAL_LOSS"])
+        c["FULL_LOSS"] = max(1, c["FULL_LOSS"])
+        while c["SPECIATION"] + 2 * c["SEGMENTAL_LOSS"] > c["DUPLICATION"] + 2 * c["FULL_LOSS"]:
+            c["FULL_LOSS"] += 1
+        case["costs"] = c
+        case["_chain"] = True
     elif group == "ordered" and gen.chance(draw, 1, 6):
         # five families under few precedence constraints: dozens of root orders to explore
         case = draw(gen.many_orders_case())
@@ -120,7 +131,7 @@ def _second_costs(c, labelled):
 def check(case):
     group = case["_group"]
     inst = Instance(case)
-    labels = common_labels(inst, labelled=group != "plain") + [f"group={group}"]
+    labels = common_labels(inst, labelled=group != "plain") + [f"group={group}"] + (["deep_chain"] if case.get("_chain") else [])
     proot = prescribed_root_of(inst) if group == "ordered" else None
     unnamed = bool(case.get("_unnamed"))
     if unnamed:
